@@ -21,7 +21,11 @@
          cleaning in all_classes mode for thresholds <= 1 ([run_raw_nonempty]);
          corollaries [run_direct_unchanged_all_classes] (C14),
          [run_total_all_classes] / [run_shexc_total_all_classes] (C04),
-         [run_keys_monotone_all_classes] (C12). *)
+         [run_keys_monotone_all_classes] (C12)
+    - J  the same with target classes and remove_empty_shapes, for class IRIs
+         not starting with '%'/"@" ([class_iris_ok], [run_raw_nonempty_remove]):
+         [run_direct_unchanged_valid], [run_total_valid], [run_shexc_total_valid],
+         [run_keys_monotone_valid]. *)
 From Coq Require Import List Ascii String ZArith NArith Bool Lia Permutation.
 From Shexer Require Import Lib.PyStr Lib.Dict Lib.Bin64 Gen.Consts Spec.Rdf Model.Tracker Model.Profiler
   Model.Tokens Model.Freq Model.FreqInst Model.Shexing Model.SerialShexc Model.Run Spec.Counts.
@@ -1670,4 +1674,29 @@ Proof.
   exact (pre_mono BAlg (scfg_of c ns) wf_frac okN53
            (fun n d H => ratio_wf _ _ _ BAlg_laws n d H) (fle_trans _ _ _ BAlg_laws)
            thr1 thr2 P C l1 l2 W1 W2 (front_counts_ok c g ns P C Hf Hg) Hle E1 E2).
+Qed.
+
+Theorem run_shexc_total_valid c thr g :
+  wf_frac thr -> fle BAlg thr (fone BAlg) = true -> (N.of_nat (List.length g) < 2 ^ 53)%N ->
+  typing_okb (r_tau c) g && forallb (sentinel_free (r_tau c)) g && prefix_free c && class_iris_ok c g = true ->
+  exists text, run_shexc BAlg c thr g = inl text.
+Proof.
+  intros Hw Hle Hg H. destruct (run_total_valid c thr g Hw Hle Hg H) as (ns & shapes & Hr).
+  apply andb_true_iff in H. destruct H as [H Hcls].
+  apply andb_true_iff in H. destruct H as [H H4]. apply andb_true_iff in H. destruct H as [H1 H2].
+  apply typing_okb_ok in H1.
+  destruct (front_total c g H1) as (ins & P & C & ID & Ht & Hp).
+  assert (Hns : full_ns c = Some ns).
+  { rewrite run_shapes_front in Hr. destruct (full_ns c) as [ns0|]; [|discriminate].
+    destruct (front c g) as [[P0 C0]|]; [|discriminate].
+    destruct (shex BAlg (scfg_of c ns0) thr P0 C0); [|discriminate]. injection Hr as <- _. reflexivity. }
+  apply (run_shexc_from_shapes BAlg c thr g ns ins P C ID shapes Hns Ht Hp); [|exact Hr].
+  intros ce Hce. split; [exact (profile_entries_renderable c g ns ins P C ID H2 Ht Hp ce Hce)|].
+  unfold class_iris_ok in Hcls. apply andb_true_iff in Hcls. destruct Hcls as [Hcg Hct].
+  destruct (profile_class_keys c g ins P C ID Ht Hp ce Hce) as [Hin|(t & o & Hin & Htp & Hto & Hid)].
+  - rewrite forallb_forall in Hct. specialize (Hct _ Hin). apply andb_true_iff in Hct. destruct Hct as [Ha _].
+    apply negb_true_iff in Ha. exact Ha.
+  - rewrite forallb_forall in Hcg. specialize (Hcg t Hin). unfold class_key_ok in Hcg.
+    rewrite Htp, str_eqb_refl, Hto, Hid in Hcg. cbn [negb orb] in Hcg.
+    apply andb_true_iff in Hcg. destruct Hcg as [Ha _]. apply negb_true_iff in Ha. exact Ha.
 Qed.
